@@ -152,15 +152,19 @@ class C07(Prop):
     quick_cases = 1500
     thorough_cases = 8000
     shard = 60
-    rule = ("random builder configurations (0-2 global labels overlapping the keys' label names, unit suffix on/off, summary mode or ascending "
+    rule = ("random builder configurations (0-3 global labels overlapping the keys' label names, unit suffix on/off, summary mode or ascending "
             "global buckets, 0-2 per-metric overrides Full/Prefix/Suffix, quantile sets) x key tables of 1..8 keys (counter / gauge / raw-bits gauge / "
             "histogram; names and label names from small alphabets with sanitisation collisions, 0..4 labels, label values with quotes, backslashes, "
             "newlines) satisfying the precondition x histories of <= 60 operations (Register, Inc/Abs incl. values wrapping 2^64, Set/Inc/Dec of "
             "quarter-exact doubles, raw 64-bit doubles set on raw gauges, Record of samples on and around the bucket bounds, Describe of the same "
             "name several times and under several kinds and unsanitised spellings, run_upkeep and render interleaved and repeated; every history ends "
             "with two renders). A case is non-trivial if at least one rendering has a sample; distinct = distinct (case, output). Stress engines: "
-            "(1) 4 recording threads x 3 histogram keys + counters || one render/run_upkeep loop, histogram and summary mode, final counts judged; "
-            "(2) visibility: rounds of N completed records, then run_upkeep() || 1-2 render() released by a barrier, every concurrent rendering must show the full cumulative _count/_sum.")
+            "(1) 4 recording threads x 3 histogram keys + counters || one render/run_upkeep loop, histogram and summary mode, final counts judged (counters exact, no excess, never decreasing, per-key shortfall <= recorders x drains); "
+            "(2) visibility: rounds of N completed records, then run_upkeep() || 1-2 render() released by a barrier, every concurrent rendering must show the full cumulative _count/_sum; "
+            "(3) handle atomics under contention, every value read from render(): 4 and 8 threads with their own handles on 2-3 series per round, barrier-released rounds of "
+            "absolute() with distinct values (round ends at the maximum, a monitor render loop never sees a decrease), increments racing absolutes at or just above the "
+            "current value (only the linearisable outcomes), gauge increments/decrements released together (exact sum), set racing increments of distinct powers of two "
+            "(set value + a subset); nothing excused.")
     design_ref = "DESIGN.md 4 C07"
     technique = ("Coq proof: refinement of a state-machine model of the recorder (handles, pending bags, persistent distributions keyed by rendered "
                  "name+labels, first-wins descriptions) to a declarative per-key specification over the history, for all histories and configurations; "
@@ -175,9 +179,9 @@ class C07(Prop):
                   "HELP is the first description of the sanitised name; rendering twice in a row gives the same rendering. The model is tied to /repo by "
                   "running the real recorder and the model on the same generated histories each run and comparing every render() output.")
     level_note = ("Trusted: Coq kernel; hand-written model (tied by differential runs, not by translation). Sequential model: the Registry is one storage per "
-                  "key (C06) and an AtomicBucket is its bag of samples (C05); the concurrent clause is checked by two free-running stress engines only (final totals under concurrent recording, which inherits "
+                  "key (C06) and an AtomicBucket is its bag of samples (C05); the concurrent clause is checked by three free-running stress engines only (final totals under concurrent recording, which inherits "
                   "C05's open finding: a sample pushed into a just-detached block is lost - accepted as that finding only up to recorders x drains per key, "
-                  "a larger shortfall or any excess is a violation; and visibility of completed records to renders concurrent with upkeep/render, where nothing is excused). "
+                  "a larger shortfall or any excess is a violation; and visibility of completed records to renders concurrent with upkeep/render, where nothing is excused; and counter/gauge handle updates from 4-8 threads released together, read back through render(), where only linearisable outcomes pass). "
                   "Render/Upkeep are atomic steps of the model; that rests on the drain running under the distributions write lock (stated at Model.v [step]), tested, not proved. Doubles are restricted to quarter-exact values below 2^50 so that "
                   "f64 addition is integer addition (C07_sum_once states the accounting for any commutative monoid; rounding is not modelled); the "
                   "Display/parse round trip is an oracle tested on every rendered value and on a stream of arbitrary bit patterns set on gauges. HashMap order: "
@@ -492,8 +496,81 @@ class C07(Prop):
                 viol.append(("visibility", "a render() running concurrently with run_upkeep()/render() on other threads (no recorder running) did not report exactly the samples whose "
                              "record() had returned before it started: _count/_sum short on %s rendering(s), over on %s, settled rendering wrong %s time(s); first = round:key:recorded:_count:_sum bits %s"
                              % (f["short"], f["over"], f["settled_bad"], f["first"]), dict(stress=line, output=out)))
+        # third engine: handle atomics (counter absolute/increment, gauge set/increment/decrement) under contention,
+        # every value read from render() of the real exporter; nothing is excused here
+        arounds, mrounds = (4000, 1500) if quick else (20000, 8000)
+        aruns = [dict(kind="a", T=4, S=3, rounds=arounds, p=16), dict(kind="a", T=8, S=2, rounds=arounds // 2, p=16),
+                 dict(kind="m", T=4, S=3, rounds=mrounds, p=40), dict(kind="g", T=4, S=3, rounds=mrounds, p=40),
+                 dict(kind="g", T=8, S=2, rounds=mrounds // 2, p=20)]
+        alines = ["A %s %d %d %d %d" % (r["kind"], r["T"], r["S"], r["rounds"], r["p"]) for r in aruns]
+        rc, outs, err = run_impl(ctx["binpath"], alines, timeout=900)
+        cov.update(atomics_runs=len(aruns), atomics_threads=sorted(set(r["T"] for r in aruns)), atomics_series_rounds=0,
+                   atomics_monitor_renders=0, atomics_rounds_with_visible_race=0)
+        for run, line, out in zip(aruns, alines, outs + [""] * len(alines)):
+            if rc != 0 or not out.startswith("panics="):
+                viol.append(("atomics", "the atomics stress driver failed or a thread panicked", dict(stress=line, output=out[:2000], stderr=err[-1000:])))
+                continue
+            f = dict(kv.split("=", 1) for kv in out.split())
+            cov["atomics_monitor_renders"] += int(f["samples"])
+            why = None
+            if int(f["panics"]):
+                why = "a handle operation panicked in a worker thread"
+            elif int(f["unreadable"]):
+                why = "a series was missing from a render() output"
+            elif int(f["nonmonotone"]):
+                why = "a counter series was seen to DECREASE between two render() outputs of the monitor thread under concurrent absolute()/increment() calls"
+            else:
+                for k, es in enumerate(f["ends"].split(";")):
+                    ends = [int(x, 16 if run["kind"] == "g" else 10) for x in es.split(",")]
+                    if len(ends) != run["rounds"]:
+                        why = "the driver did not complete all rounds"
+                        break
+                    why, raced = self.judge_atomic_rounds(run, k, ends)
+                    cov["atomics_series_rounds"] += len(ends)
+                    cov["atomics_rounds_with_visible_race"] += raced
+                    if why:
+                        why = "series %d, %s" % (k, why)
+                        break
+            if why:
+                viol.append(("atomics", "handle updates from %d threads released together, read back through render(): %s" % (run["T"], why),
+                             dict(stress=line, run=run, output=out[:3000])))
         ctx["coverage"].update(cov)
         return viol
+
+    @staticmethod
+    def judge_atomic_rounds(run, k, ends):
+        """the linearisable outcomes of each round (same rounds as C04's engine, here seen through the exporter)"""
+        kind, T, p = run["kind"], run["T"], run["p"]
+        raced, s = 0, 0
+        for r, e in enumerate(ends, 1):
+            if kind == "a":
+                # T distinct absolute values above the current one: the round must end at the largest
+                mx = r * p + T + k
+                if e != mx:
+                    return "round %d: after absolute() from every thread the counter shows %d, not the highest absolute value %d" % (r, e, mx), raced
+            elif kind == "m":
+                # p increments of kk race absolutes <= s (no-ops) and, in odd rounds, one absolute(s+1)
+                kk = 2 + r % 5
+                okv = {s + p * kk} | ({s + 1 + p * kk} if r % 2 else set())
+                if e not in okv:
+                    return ("round %d: counter went %d -> %d with increments totalling %d racing absolute(<= %d): an increment was overwritten "
+                            "or an absolute lowered the counter" % (r, s, e, p * kk, s + r % 2)), raced
+                raced += 1 if (r % 2 and e == s + p * kk) else 0
+            else:
+                x, sv = float_of(e), float_of(s)
+                if r % 2 == 0:
+                    exp = sv + p * sum((i + 1 + r % 3) * (1 if (i + r) % 2 == 0 else -1) for i in range(T))
+                    if x != exp:
+                        return "round %d: gauge shows %r, expected %r (an increment/decrement was lost or applied twice)" % (r, x, exp), raced
+                else:
+                    S = float(((r % 1000) + 1) << 20)
+                    d = x - S
+                    mask = (1 << T) - 2
+                    if d != int(d) or d < 0 or int(d) & ~mask:
+                        return "round %d: gauge shows %r after set(%r) racing increments of 2^i: not the set value plus a subset of the increments" % (r, x, S), raced
+                    raced += 1 if 0 < int(d) < mask else 0
+            s = e
+        return None, raced
 
 
 PROP = C07()
